@@ -77,6 +77,22 @@ def o141(ctx):
         ctx.count(1)
         if order is None or not (is_pyconst(order) and pyval(order) == 3):
             ctx.finding(q, ev.node, "the documented default spline order (3) must reach affine_transform", ev.node, m)
+        # what lies outside the box is empty: the boundary mode is the library's default 'constant' with value 0
+        mode, cval = ev.kwargs.get("mode"), ev.kwargs.get("cval")
+        ctx.count(1, {"boundary mode": repr(mode)[:40], "fill value": repr(cval)[:40]})
+        if mode is not None and not (is_pyconst(mode) and pyval(mode) == "constant"):
+            ctx.finding(q, ev.node, f"rotate fills from outside the box with mode={pyval(mode) if is_pyconst(mode) else 'a computed value'!r}: a rotated "
+                        "map must be empty where its source position lies outside the box (mode='constant', the library default); a periodic "
+                        "or mirrored box brings density in from the other side", ev.node, m)
+        if cval is not None and not (is_pyconst(cval) and pyval(cval) in (0, 0.0)):
+            ctx.finding(q, ev.node, "positions outside the box must contribute 0 (cval=0.0, the library default)", ev.node, m)
+        other = set(ev.kwargs) - {"input", "matrix", "output", "order", "mode", "cval", "offset", "output_shape", "prefilter"}
+        if other:
+            raise Unsupported(f"affine_transform is called with option(s) {sorted(other)} that the rule does not interpret", ev.node)
+        for o_, dflt in (("offset", (0, 0.0)), ("prefilter", (True,))):
+            v_ = ev.kwargs.get(o_)
+            if v_ is not None and not (is_pyconst(v_) and pyval(v_) in dflt):
+                raise Unsupported(f"affine_transform is called with {o_}= other than the default: not interpreted", ev.node)
 
 
 def o142_list(ctx, q, m, fn):
@@ -340,4 +356,4 @@ def _obligations():
 
 
 def obligations():
-    return _obligations() + [labels_obligation("C14"), selectors_obligation("C14"), effects_obligation("C14"), plumbing_obligation("C14")]
+    return _obligations() + [labels_obligation("C14"), selectors_obligation("C14"), effects_obligation("C14"), plumbing_obligation("C14"), overrides_obligation("C14"), options_obligation("C14")]
